@@ -9,15 +9,18 @@ that produces `CurrLine` and `CurrFileName`:
 
 * globals `MomLineCounter`, `CurrLine`, `CurrFileName` (`Glob`);
 * `TInputTag` as far as line numbers are concerned (`Tag`: which `*_Processor`, `StartLine`, `FromFile`, `LineZ`,
-  `LineCnt`, `SaveAttr`), `genProc` = `GenerateProcessor` (`StartLine = CurrLine`,
-  `FromFile = FirstInputTag->Processor == INCLUDE_Processor`, `LineZ = 1`);
+  `LineCnt`, `LineNums`, `SaveAttr`), `genProc` = `GenerateProcessor` (`StartLine = CurrLine`,
+  `FromFile = FirstInputTag->Processor == INCLUDE_Processor`, `LineZ = 1`, `LineCnt = 0`, `LineNums = NULL`);
+* `addBodyLine` = `AddBodyLine` (called by `REPT_/IRP_/WHILE_OutProcessor` for every body line they store:
+  `LineNums[LineCnt++] = CurrLine - StartLine`), `collect` = the collector being fed the body lines by the supplying tag;
 * `deliver` = one call of the tag's `Processor`: `INCLUDE_Processor` (`LineZ = CurrLine = (MomLineCounter += Count)`),
   `MACRO_Processor` (`CurrLine = StartLine`), `REPT_/IRP_/IRPC_/WHILE_Processor`
-  (`CurrLine = StartLine; if (FromFile) CurrLine += LineZ;` then `++LineZ > LineCnt → LineZ = 1`);
+  (`CurrLine = StartLine; if (FromFile) CurrLine += LineNums[LineZ - 1];` then `++LineZ > LineCnt → LineZ = 1`);
 * `ExpandINCLUDE_Core` (`StartLine = MomLineCounter; SaveAttr = CurrFileName; CurrFileName = file;
   MomLineCounter = 0; AddFile`) and `INCLUDE_Restorer` (`MomLineCounter = StartLine; CurrFileName = SaveAttr`);
 * `runItem/runBody` drive the machine over a nesting tree as `GetNextLine` and the `*_OutProcessor` collectors do (same
-  shape as `Pos.runItem`): the supplying tag delivers opener, body and ENDM of a block before the block's tag is pushed;
+  shape as `Pos.runItem`): the supplying tag delivers opener, body (every line stored by `AddBodyLine`; the closing ENDM
+  is not stored) and ENDM of a block before the block's tag is pushed;
 * `asmfnums.c AddFile/GetFileNum` (`addFile`, `fileNum`: comparison of the complete name), `AddLineInfo`'s insertion
   (`Listing.addLineInfo`), the order in which `DumpDebugInfo_MAP` / `DumpDebugInfo_NOICE` walk the list.
 
@@ -50,29 +53,58 @@ structure Tag where
   fromFile : Bool
   lineZ : Nat
   lineCnt : Nat
+  /-- `LineNums`: source line of each stored body line, relative to `StartLine` (REPT/IRP/IRPC/WHILE) -/
+  lineNums : List Nat
   saveAttr : String
 deriving Repr
 
 /-- `GenerateProcessor` (called while `top` is `FirstInputTag`) -/
 def genProc (g : Glob) (top : Tag) (kind : PKind) : Tag :=
-  { kind := kind, startLine := g.curLine, fromFile := decide (top.kind = .incl), lineZ := 1, lineCnt := 0, saveAttr := "" }
+  { kind := kind, startLine := g.curLine, fromFile := decide (top.kind = .incl), lineZ := 1, lineCnt := 0, lineNums := [],
+    saveAttr := "" }
+
+/-- `AddBodyLine(Tag, pLine)`: `Tag->LineNums[Tag->LineCnt++] = CurrLine - Tag->StartLine` (the text of the line plays no
+role here).  `CurrLine` is what the supplying tag's processor left; it is never below `StartLine` while a body is being
+collected (`Lemmas/LineInfo.lean collect_stored` computes the stored values), so the truncated subtraction is the C one. -/
+def addBodyLine (g : Glob) (t : Tag) : Tag :=
+  { t with lineNums := t.lineNums ++ [g.curLine - t.startLine], lineCnt := t.lineCnt + 1 }
 
 /-- one call of `FirstInputTag->Processor`: deliver one logical line (`count` physical lines when read from a file) -/
 def deliver (g : Glob) (t : Tag) (count : Nat) : Glob × Tag :=
   match t.kind with
   | .incl => ({ g with mom := g.mom + count, curLine := g.mom + count }, { t with lineZ := g.mom + count })
   | .macro => ({ g with curLine := t.startLine }, { t with lineZ := t.lineZ + 1 })
-  | .loop => ({ g with curLine := t.startLine + (if t.fromFile then t.lineZ else 0) },
+  -- `CurrLine = StartLine; if (FromFile) CurrLine += LineNums[LineZ - 1];` (`1 ≤ LineZ ≤ LineCnt` whenever a loop tag
+  -- is called: `Lemmas/LineInfo.lean Inv`)
+  | .loop => ({ g with curLine := t.startLine + (if t.fromFile then t.lineNums.getD (t.lineZ - 1) 0 else 0) },
               { t with lineZ := if t.lineZ + 1 > t.lineCnt then 1 else t.lineZ + 1 })
 
-/-- deliver several lines (the body of a block is collected) -/
+/-- deliver several lines: the supplying tag's side of `collect` (`Lemmas/LineInfo.lean collect_sup`) -/
 def consume (g : Glob) (t : Tag) : List Nat → Glob × Tag
   | [] => (g, t)
   | p :: ps => consume (deliver g t p).1 (deliver g t p).2 ps
 
+/-- `REPT_/IRP_/WHILE_OutProcessor` while `NestLevel > -1`: the supplying tag `sup` delivers the body lines one by one, each
+is stored in the new tag by `AddBodyLine` -/
+def collect (g : Glob) (sup tag : Tag) : List Nat → (Glob × Tag) × Tag
+  | [] => ((g, sup), tag)
+  | p :: ps => collect (deliver g sup p).1 (deliver g sup p).2 (addBodyLine (deliver g sup p).1 tag) ps
+
 def iter {σ α : Type} (f : σ → σ × List α) : Nat → σ → σ × List α
   | 0, s => (s, [])
   | n + 1, s => ((iter f n (f s).1).1, (f s).2 ++ (iter f n (f s).1).2)
+
+/-- `ExpandREPT` / `ExpandIRP` / `ExpandIRPN` / `ExpandIRPC` / `ExpandWHILE` and their collectors, as far as line numbers are
+concerned: the supplying tag `top` delivers the opening line (`GenerateProcessor` for the block's tag), the body lines
+(`lines`; each stored by `AddBodyLine`) and the closing ENDM (not stored); then the block's tag delivers its body `n` times
+(`f` = one pass through the body) and is popped -/
+def runLoop (g : Glob) (top : Tag) (lines : List Nat) (n : Nat) (f : Glob × Tag → (Glob × Tag) × List Ev) :
+    (Glob × Tag) × List Ev :=
+  let r0 := deliver g top 1
+  let c := collect r0.1 r0.2 (genProc r0.1 r0.2 .loop) lines
+  let r := deliver c.1.1 c.1.2 1
+  let q := iter f n (r.1, c.2)
+  ((q.1.1, r.2), q.2)
 
 mutual
 def runItem (g : Glob) (top : Tag) : Item → (Glob × Tag) × List Ev
@@ -86,30 +118,10 @@ def runItem (g : Glob) (top : Tag) : Item → (Glob × Tag) × List Ev
       let tag := { genProc r.1 r.2 .macro with lineCnt := b.lines.length }
       let q := runBody r.1 tag b
       ((q.1.1, r.2), q.2)
-  | .rept n b =>
-      let r0 := deliver g top 1
-      let tag := { genProc r0.1 r0.2 .loop with lineCnt := b.lines.length }
-      let r := consume r0.1 r0.2 (b.lines ++ [1])
-      let q := iter (fun s => runBody s.1 s.2 b) n (r.1, tag)
-      ((q.1.1, r.2), q.2)
-  | .irp k args b =>
-      let r0 := deliver g top 1
-      let tag := { genProc r0.1 r0.2 .loop with lineCnt := b.lines.length }
-      let r := consume r0.1 r0.2 (b.lines ++ [1])
-      let q := iter (fun s => runBody s.1 s.2 b) (tagIrpIters (mkIrp k args b.lines.length)) (r.1, tag)
-      ((q.1.1, r.2), q.2)
-  | .irpc s b =>
-      let r0 := deliver g top 1
-      let tag := { genProc r0.1 r0.2 .loop with lineCnt := b.lines.length }
-      let r := consume r0.1 r0.2 (b.lines ++ [1])
-      let q := iter (fun st => runBody st.1 st.2 b) s.length (r.1, tag)
-      ((q.1.1, r.2), q.2)
-  | .while_ n b =>
-      let r0 := deliver g top 1
-      let tag := { genProc r0.1 r0.2 .loop with lineCnt := b.lines.length }
-      let r := consume r0.1 r0.2 (b.lines ++ [1])
-      let q := iter (fun s => runBody s.1 s.2 b) n (r.1, tag)
-      ((q.1.1, r.2), q.2)
+  | .rept n b => runLoop g top b.lines n (fun s => runBody s.1 s.2 b)
+  | .irp k args b => runLoop g top b.lines (tagIrpIters (mkIrp k args b.lines.length)) (fun s => runBody s.1 s.2 b)
+  | .irpc s b => runLoop g top b.lines s.length (fun st => runBody st.1 st.2 b)
+  | .while_ n b => runLoop g top b.lines n (fun s => runBody s.1 s.2 b)
   | .incl file b =>
       let r := deliver g top 1
       -- ExpandINCLUDE_Core: Tag->StartLine = MomLineCounter; SaveAttr = CurrFileName; CurrFileName = file; MomLineCounter = 0
@@ -126,7 +138,7 @@ def runBody (g : Glob) (top : Tag) : Body → (Glob × Tag) × List Ev
 end
 
 /-- the tag of the main file (`AssembleFile`: `ExpandINCLUDE_Core` on an empty chain) -/
-def mainTag : Tag := { kind := .incl, startLine := 0, fromFile := true, lineZ := 0, lineCnt := 0, saveAttr := "" }
+def mainTag : Tag := { kind := .incl, startLine := 0, fromFile := true, lineZ := 0, lineCnt := 0, lineNums := [], saveAttr := "" }
 
 /-- a whole pass over the main file -/
 def run (name : String) (b : Body) : List Ev :=
